@@ -48,6 +48,11 @@ func getEnumType(t string) (ast.Type, error) {
 func inferEnumType(values []any) string {
 	inferred := ""
 	for _, value := range values {
+		// `null` says nothing about the type of the members
+		if value == nil {
+			continue
+		}
+
 		valueType := ""
 		switch v := value.(type) {
 		case string:
